@@ -474,3 +474,13 @@ def c19h(ctx):
     under it, a third writer creates and locks a new file -- two writers append to one bundle and one record overwrites the other"""
     from ..engine import share
     share(ctx, 'C07', {'C07.c'})
+
+
+@rule('C19.h', floor=1)
+def c19h(ctx):
+    """shared rule C07.b, re-evaluated for this property: two writers never append to one bundle at the same offset -- the bundle lock
+    is released by unlinking its file, so the acquisition checks *after* flock that the path still names the locked inode (checked
+    before, a writer can lock an orphaned file while another locks the fresh one: both seek to the same end of file and one record
+    overwrites the other, the index then holds a size that is not the recorded one)"""
+    from ..engine import share
+    share(ctx, 'C07', {'C07.b'})
